@@ -107,6 +107,11 @@ func c10Setup(prm c10Params) func(c *fw.Ctx, name string) explore.Setup {
 							st.p.Send(peerFrame(k, frame.Frame{Fin: true, Opcode: frame.OpPing, Payload: []byte("pp")}))
 							st.p.Send(peerData(k, frame.OpCont, false, nil))
 							st.p.Send(peerData(k, frame.OpCont, true, fill(0xD3, 5)))
+						case "RE":
+							st.p.Send(peerData(k, frame.OpBinary, false, fill(0xD4, 6)))
+							st.p.Send(peerData(k, frame.OpCont, true, nil))
+						case "R0":
+							st.p.Send(peerData(k, frame.OpText, true, nil))
 						case "RC":
 							msg := bytes.Repeat([]byte("compress me "), 30)
 							pl := def.Message(msg)
@@ -167,7 +172,7 @@ func c10Setup(prm c10Params) func(c *fw.Ctx, name string) explore.Setup {
 					cl.startTick = st.tick
 					cl.started = true
 					switch op {
-					case "R1", "R3", "RC", "RN":
+					case "R1", "R3", "RC", "RE", "R0", "RN":
 						_, _, cl.err = conn.Read(ctx)
 					case "W1", "WL":
 						cl.err = conn.Write(ctx, websocket.MessageBinary, fill(byte(0xA0+i), 10))
@@ -316,6 +321,156 @@ func c10Oracle(c *fw.Ctx, w *vs.World, name string, prm c10Params, st *c10State)
 	}
 }
 
+// ---- concurrent calls, each with its own context
+
+type c10ConcParams struct {
+	K      connCfg
+	B      string // second call: P (Ping) | W (Write) | R (Read, silent peer)
+	Cancel string // A | B | AB : whose context gets cancelled
+	Drain  bool   // the peer opens its window at a scheduler-chosen moment
+}
+
+func (p c10ConcParams) name() string {
+	d := ""
+	if p.Drain {
+		d = "-drain"
+	}
+	return fmt.Sprintf("cc/WB+%s/cancel%s%s/%s", p.B, p.Cancel, d, p.K.String())
+}
+
+func c10ConcSetup(prm c10ConcParams) func(c *fw.Ctx, name string) explore.Setup {
+	return func(c *fw.Ctx, name string) explore.Setup {
+		return func(w *vs.World) func(bool) {
+			st := &c10State{p: vpipe.New()}
+			st.p.Window = 8
+			k := prm.K
+			ops := []string{"WB", prm.B}
+			for _, op := range ops {
+				st.calls = append(st.calls, &c10Call{op: op})
+			}
+			w.GoHarness("main", true, func() {
+				conn := mkConn(st.p, k)
+				bg := vctx.Background()
+				w.GoHarness("bgreader", false, func() {
+					if prm.B == "R" {
+						return
+					}
+					for {
+						_, r, err := conn.Reader(bg)
+						if err != nil {
+							return
+						}
+						if _, err := io.Copy(io.Discard, r); err != nil {
+							return
+						}
+					}
+				})
+				if prm.Drain {
+					w.GoHarness("drainer", false, func() { st.p.Drain(-1); st.p.Window = 0 })
+				}
+				tasks := make([]*vs.Task, 2)
+				ctxs := make([]vctx.Context, 2)
+				for i := range ops {
+					ctxs[i], _ = vctx.WithCancel(bg)
+				}
+				for i, op := range ops {
+					i, op := i, op
+					cl := st.calls[i]
+					tasks[i] = w.GoHarness(fmt.Sprintf("call%d-%s", i, op), true, func() {
+						st.tick++
+						cl.startTick = st.tick
+						cl.started = true
+						switch op {
+						case "WB":
+							cl.err = conn.Write(ctxs[i], websocket.MessageBinary, fill(0xA1, 100))
+						case "W":
+							cl.err = conn.Write(ctxs[i], websocket.MessageText, fill(0xA2, 5))
+						case "P":
+							cl.err = conn.Ping(ctxs[i])
+						case "R":
+							_, _, cl.err = conn.Read(ctxs[i])
+						}
+						st.tick++
+						cl.endTick = st.tick
+						cl.endNow = w.Now
+						cl.returned = true
+					})
+				}
+				for i := range ops {
+					i := i
+					if !strings.Contains(prm.Cancel, string(rune('A'+i))) {
+						continue
+					}
+					cl := st.calls[i]
+					w.GoHarness(fmt.Sprintf("cancel%d", i), true, func() {
+						vs.Point(&vs.Op{Desc: "deliver-cancel", Ready: func() []int { return []int{0} }, Fire: func(int) {
+							if cl.started && !cl.returned {
+								cl.blockedAtCancel, cl.blockedIn = w.Blocked(tasks[i])
+							}
+							vctx.CancelNow(ctxs[i])
+							st.tick++
+							cl.cancelTick = st.tick
+							cl.cancelNow = w.Now
+						}, Objs: func(int) ([]unsafe.Pointer, []unsafe.Pointer, *vs.Task) {
+							return nil, append(vctx.DoneObjs(ctxs[i]), st.p.RObj()), nil
+						}})
+					})
+				}
+				vs.Quiesce()
+			})
+			return func(complete bool) {
+				if !complete {
+					return
+				}
+				role := prm.K.String()
+				if w.Panic != "" {
+					violate(c, w, name, "C10/panic/"+role, w.Panic)
+					return
+				}
+				out := name
+				for _, cl := range st.calls {
+					out += fmt.Sprintf("|%s:ret=%v:err=%v:c=%v", cl.op, cl.returned, cl.err != nil, cl.cancelTick != 0)
+				}
+				c.OutcomeStr(out + fmt.Sprintf("|closed=%v", st.p.Closed))
+				for _, cl := range st.calls {
+					if cl.started && !cl.returned && cl.cancelTick != 0 {
+						violate(c, w, name, "C10/call-never-returns/"+c10Api(cl.op)+"/cancelled/"+role, fmt.Sprintf("concurrent calls %s and %s: the context of %s was cancelled (call blocked in %q at that moment) but the call never returned; connection closed=%v", st.calls[0].op, st.calls[1].op, cl.op, cl.blockedIn, st.p.Closed))
+						return
+					}
+				}
+				for _, cl := range st.calls {
+					if !cl.returned {
+						continue
+					}
+					during := cl.cancelTick != 0 && cl.cancelTick > cl.startTick && cl.cancelTick < cl.endTick
+					if during && cl.err != nil && cl.blockedAtCancel {
+						if cl.endNow-cl.cancelNow > int64(time.Second) {
+							violate(c, w, name, "C10/cancelled-call-not-prompt/"+c10Api(cl.op)+"/"+role, fmt.Sprintf("call %s returned %v after its context was cancelled", cl.op, time.Duration(cl.endNow-cl.cancelNow)))
+							return
+						}
+						if !st.p.Closed {
+							site := "other"
+							switch {
+							case strings.Contains(cl.err.Error(), "failed to acquire lock"):
+								site = "gave-up-acquiring-lock"
+							case strings.Contains(cl.err.Error(), "failed to wait for pong"):
+								site = "gave-up-waiting-for-pong"
+							}
+							violate(c, w, name, "C10/cancelled-call-leaves-connection-open/"+c10Api(cl.op)+"/"+site+"/"+role, fmt.Sprintf("concurrent calls: %s was blocked in %q when its context was cancelled; it returned %q but the connection was never closed", cl.op, cl.blockedIn, cl.err))
+							return
+						}
+					}
+					// a call whose own context was never cancelled may only fail if the connection was closed
+					if cl.cancelTick == 0 && cl.err != nil && !st.p.Closed {
+						violate(c, w, name, "C10/foreign-cancellation-fails-call/"+c10Api(cl.op)+"/"+role, fmt.Sprintf("call %s failed with %q although its own context was never cancelled and the connection is open", cl.op, cl.err))
+						return
+					}
+				}
+			}
+		}
+	}
+}
+
 func c10Api(op string) string {
 	switch op[0] {
 	case 'R':
@@ -374,9 +529,22 @@ func c10Scenarios(tier string) []scenario {
 	}
 	plain := []connCfg{{Client: false}, {Client: true}}
 	flate := []connCfg{{Client: false, Flate: true}, {Client: true, Flate: true}}
-	build("rw", []string{"R1", "R3", "W1", "WM"}, []string{"RN", "WB", "WL"}, plain)
+	build("rw", []string{"R1", "R3", "RE", "R0", "W1", "WM"}, []string{"RN", "WB", "WL"}, plain)
 	build("rw", []string{"RC", "W1"}, []string{"RN"}, flate)
 	build("pw", []string{"P1", "W1"}, []string{"PN", "WL"}, plain)
+	for _, k := range plain {
+		for _, b := range []string{"P", "W", "R"} {
+			for _, cs := range []string{"A", "B", "AB"} {
+				for _, dr := range []bool{false, true} {
+					if dr && cs == "AB" && tier != "thorough" {
+						continue
+					}
+					prm := c10ConcParams{K: k, B: b, Cancel: cs, Drain: dr}
+					scs = append(scs, scenario{Name: prm.name(), Cfg: cfg, Setup: c10ConcSetup(prm), Group: fmt.Sprintf("cc/%s/%s/%s/%v", k.String(), b, cs, dr)})
+				}
+			}
+		}
+	}
 	return scs
 }
 
